@@ -101,7 +101,7 @@ func (ex *Exec) instr(s *State, fr *Frame, in ssa.Instruction) {
 		}
 		if at, ok := elem.Underlying().(*types.Array); ok && isByteType(at.Elem()) && x.Heap {
 			// new [N]byte (varargs / make): a byte object
-			obj := s.newObject(ex, "bytes", 0)
+			obj := s.newObject(ex, "bytes", bytesTypeID)
 			bl := s.H(ex, "blen", ArrSort(SRef, SInt))
 			s.setH("blen", Store(bl, obj, IntC(at.Len())))
 			for i := int64(0); i < at.Len(); i++ {
@@ -619,6 +619,7 @@ func (ex *Exec) convert(s *State, fr *Frame, v Value, from, to types.Type, at ss
 		}
 		switch p := v.(type) {
 		case RefV:
+			s.instantiateAt(ex, p.T)
 			ex.castObligation(s, fr, p.T, pt.Elem(), at)
 			return RefV{T: p.T, Typ: ex.subst(pt.Elem())}
 		case PtrV:
@@ -698,7 +699,7 @@ func (ex *Exec) convInt(s *State, fr *Frame, iv IntV, w int, sg bool, at ssa.Ins
 
 // copyBytes allocates a fresh byte object holding a copy of sl's contents.
 func (ex *Exec) copyBytes(s *State, sl SliceV, asStr bool) SliceV {
-	obj := s.newObject(ex, "bytes", 0)
+	obj := s.newObject(ex, "bytes", bytesTypeID)
 	bl := s.H(ex, "blen", ArrSort(SRef, SInt))
 	s.setH("blen", Store(bl, obj, sl.Len))
 	b := s.H(ex, "B", ex.bSort())
@@ -748,20 +749,21 @@ func (ex *Exec) castObligation(s *State, fr *Frame, p Term, elem types.Type, at 
 		return
 	}
 	name := baseTypeName(elem)
-	at0 := s.H(ex, "atype", ArrSort(SRef, SInt))
+	at0 := Term{"", ""}
+	_ = at0
 	var ok Term
 	if name == "node" {
 		// any inner node class embeds node at offset 0
 		var alts []Term
 		for _, n := range []string{"node4", "node16", "node48", "node256"} {
 			if l := ex.layoutByName(n); l != nil {
-				alts = append(alts, Eq(Select(at0, p), IntC(int64(l.TypeID))))
+				alts = append(alts, Eq(atypeOf(ex.st, p), IntC(int64(l.TypeID))))
 			}
 		}
 		ok = Or(alts...)
 	} else {
 		l := ex.layouts.Of(elem)
-		ok = Eq(Select(at0, p), IntC(int64(ex.layoutClass(l, elem))))
+		ok = Eq(atypeOf(ex.st, p), IntC(int64(ex.layoutClass(l, elem))))
 	}
 	ex.emit(s, "cast", fmt.Sprintf("cast/%s/%s@%s", normName(fr.fn.RelString(ex.prog.SSA.Pkg)), name, ex.prog.SrcAnchor(at.Pos())), Or(Eq(p, Null), ok), at.Pos(), "unsafe.Pointer converted to *"+name+" only when the object was allocated with an identical layout")
 }
